@@ -63,6 +63,56 @@ impl EngineResult {
             }
         }
     }
+    /// merge the result document of a worker process: numeric coverage is added, maps of numbers
+    /// are added key-wise, booleans are AND-ed (keys starting with "exhaustive") or OR-ed, violations united
+    pub fn merge_json(&mut self, other: &Value) {
+        if let Some(cov) = other["coverage"].as_object() {
+            for (k, v) in cov {
+                if k == "samples" {
+                    for s in v.as_array().cloned().unwrap_or_default() {
+                        self.sample(s);
+                    }
+                    continue;
+                }
+                match (self.coverage.get(k).cloned(), v) {
+                    (None, _) => {
+                        self.coverage.insert(k.clone(), v.clone());
+                    }
+                    (Some(Value::Number(a)), Value::Number(b)) => {
+                        self.coverage.insert(k.clone(), json!(a.as_u64().unwrap_or(0) + b.as_u64().unwrap_or(0)));
+                    }
+                    (Some(Value::Bool(a)), Value::Bool(b)) => {
+                        self.coverage.insert(k.clone(), json!(if k.starts_with("exhaustive") { a && *b } else { a || *b }));
+                    }
+                    (Some(Value::Object(mut a)), Value::Object(b)) => {
+                        for (kk, vv) in b {
+                            let cur = a.get(kk).and_then(|x| x.as_u64()).unwrap_or(0);
+                            a.insert(kk.clone(), json!(cur + vv.as_u64().unwrap_or(0)));
+                        }
+                        self.coverage.insert(k.clone(), Value::Object(a));
+                    }
+                    _ => {}
+                }
+            }
+        }
+        for v in other["violations"].as_array().cloned().unwrap_or_default() {
+            let sig = v["sig"].as_str().unwrap_or("?").to_string();
+            let n = v["count"].as_u64().unwrap_or(1);
+            match self.violations.get_mut(&sig) {
+                Some(e) => e.1 += n,
+                None => {
+                    self.violations.insert(sig.clone(), (Violation { sig, what: v["what"].as_str().unwrap_or("").to_string(), replay: v["replay"].clone() }, n));
+                }
+            }
+        }
+        for a in other["assumptions"].as_array().cloned().unwrap_or_default() {
+            if let Some(s) = a.as_str() {
+                if !self.assumptions.iter().any(|x| x == s) {
+                    self.assumptions.push(s.to_string());
+                }
+            }
+        }
+    }
     pub fn n_violations(&self) -> usize {
         self.violations.len()
     }
@@ -106,4 +156,42 @@ pub fn seed() -> u64 {
 pub fn machinery(msg: &str) -> ! {
     eprintln!("MACHINERY-ERROR: {msg}");
     std::process::exit(2)
+}
+
+
+/// Run `n` copies of the current executable as workers (env VERIF_WORKER=i/n), each in its own
+/// nested network + mount namespace prepared by `prep` (a shell snippet), and merge their results.
+pub fn run_workers(res: &mut EngineResult, n: usize, prep: &str) {
+    let exe = std::env::current_exe().unwrap();
+    let base = std::env::var("VERIF_RESULT").unwrap_or_else(|_| "/verif/target/run/worker".to_string());
+    let mut children = Vec::new();
+    for i in 0..n {
+        let out = format!("{base}.w{i}");
+        let _ = std::fs::remove_file(&out);
+        let script = format!("ip link set lo up; {prep} exec \"$0\"");
+        let child = std::process::Command::new("unshare")
+            .args(["-n", "-m", "--propagation", "private", "--", "/bin/sh", "-c", &script])
+            .arg(&exe)
+            .env("VERIF_WORKER", format!("{i}/{n}"))
+            .env("VERIF_RESULT", &out)
+            .spawn()
+            .unwrap_or_else(|e| machinery(&format!("cannot start worker: {e}")));
+        children.push((child, out));
+    }
+    for (mut c, out) in children {
+        let st = c.wait().unwrap();
+        if !st.success() {
+            machinery(&format!("worker failed: {st}"));
+        }
+        let doc: Value = serde_json::from_str(&std::fs::read_to_string(&out).unwrap_or_else(|e| machinery(&format!("worker result {out}: {e}")))).unwrap();
+        let _ = std::fs::remove_file(&out);
+        res.merge_json(&doc);
+    }
+}
+
+/// Some((i, n)) when this process is worker i of n
+pub fn worker() -> Option<(usize, usize)> {
+    let v = std::env::var("VERIF_WORKER").ok()?;
+    let (a, b) = v.split_once('/')?;
+    Some((a.parse().ok()?, b.parse().ok()?))
 }
